@@ -15,6 +15,7 @@ import PintModel.Model.Context
 import PintModel.Model.GroupSys
 import PintModel.Model.Rewrite
 import PintModel.Model.Wraps
+import PintModel.Model.Measure
 import PintModel.Gen.DefaultRegistry
 
 open Lean
@@ -550,6 +551,59 @@ def stepWraps (st : DriverState) (j : Json) : DriverState × Json :=
       | none => (st, badJ "wraps check: dims"))
   | _, _, _, _ => (st, badJ "wraps: f/sig/args/kw")
 
+
+/-! ### measurements (C19) -/
+
+def jMArg? (j : Json) : Option Meas.Arg :=
+  match fRat j "num" with
+  | some x => some (.num x)
+  | none =>
+    match fRat j "n", fRat j "s" with
+    | some n, some s => some (.ufl n s)
+    | _, _ => do pure (.q (← fRat j "m") (← fUC j "u"))
+
+def measJ (m : Meas.M) : Json := Json.mkObj [("n", ratJ m.nominal), ("s", ratJ m.std), ("u", ucJ m.units)]
+
+def tokKindStr : Eval.TokKind → String
+  | .op => "op" | .number => "number" | .name => "name" | .endmarker => "end" | .other => "other"
+
+def stepMeas (st : DriverState) (j : Json) : DriverState × Json :=
+  let R0 := st.reg
+  let toUnits : Rat → UC → UC → Except Err Rat := fun x src dst =>
+    (registerKeys (registerKeys R0 src) dst).convert x src dst false
+  match fStr j "f" with
+  | some "mk" =>
+    (match field j "value" >>= jMArg? with
+      | some v => (st, exceptJ measJ (Meas.mk toUnits v (field j "error" >>= jMArg?) (fUC j "units")))
+      | none => (st, badJ "meas mk: value"))
+  | some "plus_minus" =>
+    (match field j "q" >>= jQty?, field j "error" >>= jMArg? with
+      | some q, some e => (st, exceptJ measJ (Meas.plusMinus toUnits q e ((fBool j "relative").getD false)))
+      | _, _ => (st, badJ "meas plus_minus: q/error"))
+  | some "convert" =>
+    (match fRat j "n", fRat j "s", fUC j "u", fUC j "dst" with
+      | some n, some s, some u, some dst =>
+        (match toUnits 0 u dst, toUnits 1 u dst with
+          | .ok b, .ok ab => (st, okJ (measJ (Meas.convertAffine ⟨n, s, u⟩ (ab - b) b dst)))
+          | .error e, _ => (st, errJ e)
+          | _, .error e => (st, errJ e))
+      | _, _, _, _ => (st, badJ "meas convert"))
+  | some "rel" =>
+    (match fRat j "n", fRat j "s" with
+      | some n, some s => (st, exceptJ ratJ (Meas.rel ⟨n, s, []⟩))
+      | _, _ => (st, badJ "meas rel"))
+  | some "tokens" =>
+    (match (field j "tokens" >>= jArr?) >>= (fun a => a.toList.mapM jToken?) with
+      | some toks =>
+        (st, exceptJ (fun (l : List Eval.Token) => Json.arr (l.map fun t => Json.arr #[Json.str (tokKindStr t.kind), Json.str t.text]).toArray)
+          (Meas.uncTokens toks.length toks))
+      | none => (st, badJ "meas tokens"))
+  | some "paren_std" =>
+    (match fStr j "nominal", fStr j "std" with
+      | some a, some b => (st, okJ (Json.str (Meas.parenStd a b)))
+      | _, _ => (st, badJ "meas paren_std"))
+  | _ => (st, badJ "meas: f")
+
 /-! ### registry queries (C01, C02, C08) -/
 
 def stepReg (st : DriverState) (op : String) (j : Json) : DriverState × Json :=
@@ -682,6 +736,7 @@ def step (st : DriverState) (j : Json) : DriverState × Json :=
   | some "gs" => stepGS st j
   | some "rw" => stepRw st j
   | some "wraps" => stepWraps st j
+  | some "meas" => stepMeas st j
   | some op => stepReg st op j
 
 end Pint
